@@ -1068,10 +1068,12 @@ export class ProcGenWrapper {
       const tmplArgs = getTmplArgs(elem)
       if (!tmplArgs.dynEvListeners) tmplArgs.dynEvListeners = {}
       const dynEvListeners = tmplArgs.dynEvListeners
-      if (dynEvListeners[evName]) {
-        elem.removeListener(evName, dynEvListeners[evName]!, evOptions)
+      // (bindings of one event with different options, e.g. `bind:tap` and `capture-bind:tap`, are different listeners)
+      const listenerKey = `${evName}:${final ? 1 : 0}${mutated ? 1 : 0}${capture ? 1 : 0}`
+      if (dynEvListeners[listenerKey]) {
+        elem.removeListener(evName, dynEvListeners[listenerKey]!, evOptions)
       }
-      dynEvListeners[evName] = listener
+      dynEvListeners[listenerKey] = listener
     }
     if (handler) elem.addListener(evName, listener, evOptions)
   }
